@@ -27,7 +27,7 @@ theorem chunk_invariance_spec (T : Tables) (cfg : Cfg) (pieces : List (List Byte
   | nil => intro s; simp [run1]
   | cons p ps ih => intro s; simp [List.flatten_cons, run1_append, ih]
 
-example : (readAll ⟨[], [], [], [], [], [], [], [], [], [], [], [], [], [], [], [], [], [], 0, []⟩ {} []) matches .ok [] 0 := by
+example : (readAll ⟨[], [], [], [], [], [], [], [], [], [], [], [], [], [], [], [], [], [], [], 0, []⟩ {} []) matches .ok [] 0 := by
   decide
 
 /-- **The block reader refines the byte fold.** For every table, configuration (read base, float
@@ -35,7 +35,7 @@ example : (readAll ⟨[], [], [], [], [], [], [], [], [], [], [], [], [], [], []
     empty reads included — the block reader with its `tokenStart` / `carry` / `buf` bookkeeping
     returns exactly what the byte-at-a-time specification returns on the concatenation: the same
     objects in the same order, the same position, the same error and the same objects finished
-    before the error. All 15 modes are covered; no hypothesis on the tables. -/
+    before the error. All 16 modes are covered (`charStartMode` included); no hypothesis on the tables. -/
 theorem blocks_refine_bytes (T : Tables) (cfg : Cfg) (blocks : List (List Byte)) (last : List Byte) :
     readBlocks T cfg blocks last = readAll T cfg (blocks.flatten ++ last) := by
   unfold readBlocks readAll
@@ -61,7 +61,7 @@ example : ([[40, 97], [98, 32, 99]] : List (List Byte)).flatten ++ [41] = ([] : 
 
 /-- **Truncation is signalled.** If the text read so far stops inside a form — inside a list /
     vector / array / complex (depth > 0), inside a string or |symbol| or one of their escapes,
-    inside `#`-dispatch, inside a block comment, or behind a quote-like prefix whose datum is
+    inside `#`-dispatch (directly behind `#\\` included), inside a block comment, or behind a quote-like prefix whose datum is
     missing — then reading it as a whole text is an error (incomplete or parse error), for every
     table and configuration. It is never reported as `ok` with fewer or other objects. -/
 -- (concrete instances of the hypotheses, with the regenerated tables: the samples of Theorems/GenC02)
